@@ -414,7 +414,76 @@ def beh_case(chk, i, use_miri=False):
     return Verdict(HELD, name, obs=obs, nontrivial=counts["eq_pairs"] + counts["default_checks"] + counts["debug_calls"] >= 2, key=name)
 
 
+EXTRA_KINDS = """typedef float vf4 __attribute__((vector_size(16)));
+typedef int vi2 __attribute__((vector_size(8)));
+struct XK_complex { double _Complex dc; int tag; };
+struct XK_complexf { float _Complex fc[2]; char c; };
+struct XK_vector { vf4 v; int n; };
+struct XK_vector2 { vi2 a; vi2 b[3]; };
+struct XK_plain { int a; unsigned char b[4]; long c; };
+struct XK_holder { struct XK_plain p; struct XK_vector v; struct XK_complex c; };
+struct XK_fnptr { int (*cb)(int, char); void *p; };
+struct XK_big { int big[40]; short s; };
+union XK_union { int i; float f; };
+struct XK_huser { union XK_union u; enum { XK_A, XK_B } e; };
+"""
+
+
+def norecursive_case(chk, i):
+    """allowlisting every type explicitly without recursion selects the same items as the default: the derive lists must be the same
+    (types the analysis treats as always available — builtins, complex, vectors, pointers — must not turn into 'blocklisted' members)"""
+    rng = chk.rng("norec", i)
+    model = G.Gen(rng, dict(SPEC_CFG, p_anon=0.0, p_inline_named=0.0, p_tagless_typedef=0.0, p_bitfield=0.05)).generate()
+    d = chk.dir("nr%d" % (i % 32))
+    text = model.header() + EXTRA_KINDS
+    hdr = write(os.path.join(d, "nr%d.h" % i), text)
+    onmask = rng.randrange(64)
+    flags = [f for k, f in enumerate(ALL_DERIVES) if onmask >> k & 1]
+    if "--with-derive-eq" in flags and "--with-derive-partialeq" not in flags:
+        flags.append("--with-derive-partialeq")
+    if "--with-derive-ord" in flags:
+        flags = [f for f in flags if f != "--with-derive-ord"]       # (PartialOrd/Ord through __BindgenComplex is a recorded C01 finding)
+    if "--with-derive-partialord" in flags:
+        flags = [f for f in flags if f != "--with-derive-partialord"]
+    name = "norecursive-%d" % i
+    views = []
+    # every NAMED type by name (not `.*`: unnamed type items such as `double _Complex` or a vector type have no name a user could list)
+    names = sorted(set([r_.rust_name for r_ in model.records if r_.name or r_.typedef_name] + [e_.name for e_ in model.enums if e_.name] + [t_[0] for t_ in model.typedefs]
+                       + re.findall(r"\b(XK_\w+|vf4|vi2)\b", EXTRA_KINDS)))
+    pat = "|".join(re.escape(n_) for n_ in names)
+    for tag, extra in (("default", []), ("norec", ["--no-recursive-allowlist", "--allowlist-type", pat, "--allowlist-function", ".*", "--allowlist-var", ".*"])):
+        b = os.path.join(d, "b%d_%s.rs" % (i, tag))
+        rc, so, se, _ = sh([build.BINDGEN, hdr] + flags + extra + ["--no-layout-tests", "-o", b], timeout=120, cpu=100)
+        if rc != 0:
+            return Verdict(INCONCLUSIVE, name, "bindgen failed " + se[-200:])
+        inv = htypes.inventory(b)
+        if "error" in inv:
+            return Verdict(INCONCLUSIVE, name, "parse")
+        v = {}
+        for it in inv["items"]:
+            if it["kind"] in ("struct", "union"):
+                v[it["name"]] = sorted(set(it.get("derives", [])) & set(NINE))
+        manual = {}
+        for it in inv["items"]:
+            if it["kind"] == "impl" and it.get("trait"):
+                manual.setdefault(it["self_ty"].replace(" ", ""), set()).add(it["trait"].split("::")[-1].strip())
+        views.append((v, manual, open(b).read()))
+    (a, ma, ta), (b_, mb, tb) = views
+    diffs = []
+    for tname in sorted(set(a) & set(b_)):
+        if a[tname] != b_[tname] or ma.get(tname, set()) != mb.get(tname, set()):
+            diffs.append("%s: default %s+%s, all types allowlisted without recursion %s+%s" % (tname, a[tname], sorted(ma.get(tname, ())), b_[tname], sorted(mb.get(tname, ()))))
+    missing = sorted(set(a) - set(b_))
+    obs = {"norecursive_headers": 1, "norecursive_types_compared": len(set(a) & set(b_))}
+    files = {"header.h": text, "flags.txt": " ".join(flags), "default.rs": ta, "norecursive.rs": tb}
+    if diffs or missing:
+        return Verdict(VIOLATED, name, ("derive lists differ:\n" + "\n".join(diffs[:8]) if diffs else "") + ("\ntypes missing although allowlisted by `.*`: %s" % missing[:8] if missing else ""),
+                       files=files, obs=obs)
+    return Verdict(HELD, name, obs=obs, nontrivial=obs["norecursive_types_compared"] >= 4, key=name)
+
+
 def run(chk):
+    chk.map(lambda i: norecursive_case(chk, i), range(chk.pick(30, 300)), budget_s=chk.pick(200, 900))
     chk.map(lambda i: spec_case(chk, i), range(chk.pick(120, 1500)), budget_s=chk.pick(300, 2400))
     chk.map(lambda i: beh_case(chk, i), range(chk.pick(60, 600)), budget_s=chk.pick(300, 2400))
     chk.map(lambda i: beh_case(chk, i + 100000, use_miri=True), range(chk.pick(6, 60)), budget_s=chk.pick(300, 1800), jobs=8)
